@@ -535,3 +535,11 @@ for nm in ("BoundedSemaphore", "Lock", "Semaphore", "RLock"):
 
 _decodable = z3.Function("py_decodable_ascii", T.StrS, T.BoolS)
 S.spec_funcs["decodable"] = lambda eng, st, s_: VBool(_decodable(z3.Function("py_str_strip", T.StrS, T.StrS)(s_.t)))
+
+S.cls("BytesIO", {}, external=True)
+c = S.ext("io.BytesIO", cite="io.BytesIO(): in-memory buffer")
+c.returns(T.Ref("BytesIO"), fresh=True).modifies()
+c = S.ext("BytesIO.getbuffer", cite="BytesIO.getbuffer()")
+c.param("self", T.Ref("BytesIO")).returns(T.Obj).modifies()
+c = S.ext("BytesIO.getvalue", cite="BytesIO.getvalue()")
+c.param("self", T.Ref("BytesIO")).returns(T.Obj).modifies()
